@@ -36,6 +36,11 @@ struct Job {
     schedule: Vec<usize>,
     #[serde(default)]
     seed: u64,
+    /// PCT-style scheduling: fixed random thread priorities with a few random demotion points, which
+    /// produces long uninterrupted runs of one thread (needed for windows that several steps of
+    /// another thread must fall into).
+    #[serde(default)]
+    pct: bool,
 }
 
 #[derive(Default)]
@@ -225,6 +230,16 @@ fn run_job(job: &Job, base: &Path, out: &mut Vec<String>) {
     let mut rng = job.seed.wrapping_mul(0x9E37_79B9_7F4A_7C15) | 1;
     let mut unrealizable = 0u64;
     let started = Instant::now();
+    let mut next_rand = move || {
+        rng ^= rng << 13;
+        rng ^= rng >> 7;
+        rng ^= rng << 17;
+        rng
+    };
+    let mut prio: Vec<u64> = (0..n).map(|_| next_rand() % 1_000_000 + 1000).collect();
+    let change_points: Vec<u64> = (0..2).map(|_| next_rand() % 24 + 1).collect();
+    let mut granted_steps = 0u64;
+    let mut low = 999u64;
     let mut running: HashSet<usize> = HashSet::new(); // granted, not yet back at a gate (maybe blocked)
     loop {
         let mut st = ctl.st.lock().unwrap();
@@ -265,20 +280,62 @@ fn run_job(job: &Job, base: &Path, out: &mut Vec<String>) {
         let mut pick = None;
         while sched_pos < job.schedule.len() {
             let want = job.schedule[sched_pos];
-            sched_pos += 1;
             if ready.contains(&want) {
+                sched_pos += 1;
                 pick = Some(want);
                 break;
             }
+            // The wanted thread is not at a gate. If it has not started yet (or is between gates
+            // without being blocked) give it a moment to arrive before declaring the step unrealizable.
+            if want < n && !st.finished.contains(&want) && !running.contains(&want) {
+                let deadline = Instant::now() + Duration::from_millis(50);
+                let mut st2 = st;
+                while !st2.waiting.contains_key(&want) && !st2.finished.contains(&want) && Instant::now() < deadline {
+                    let (g2, _) = ctl.cv.wait_timeout(st2, Duration::from_millis(2)).unwrap();
+                    st2 = g2;
+                }
+                st = st2;
+                ready = st.waiting.keys().cloned().collect();
+                ready.sort();
+                if ready.contains(&want) {
+                    sched_pos += 1;
+                    pick = Some(want);
+                    break;
+                }
+            }
+            sched_pos += 1;
             unrealizable += 1;
+        }
+        if ready.is_empty() {
+            continue;
         }
         let tid = match pick {
             Some(t) => t,
             None => {
-                rng ^= rng << 13;
-                rng ^= rng >> 7;
-                rng ^= rng << 17;
-                ready[(rng % ready.len() as u64) as usize]
+                if job.pct {
+                    let mut best = ready[0];
+                    for t in ready.iter() {
+                        if prio[*t] > prio[best] {
+                            best = *t;
+                        }
+                    }
+                    granted_steps += 1;
+                    if change_points.contains(&granted_steps) {
+                        // demote the thread that would run now below all others
+                        prio[best] = low;
+                        low -= 1;
+                        let mut b2 = ready[0];
+                        for t in ready.iter() {
+                            if prio[*t] > prio[b2] {
+                                b2 = *t;
+                            }
+                        }
+                        best = b2;
+                    }
+                    best
+                } else {
+                    ready[(next_rand() % ready.len() as u64) as usize]
+                }
             }
         };
         st.granted = Some(tid);
